@@ -24,10 +24,22 @@ def depth_attr(F, lm) -> str:
     t = rm.rule.func.args.args[0].arg
     loads = set()
     stores = set()
-    for n in ast.walk(rm.rule.func):
-        if isinstance(n, ast.Attribute) and isinstance(n.value, ast.Attribute) and isinstance(n.value.value, ast.Name) \
-                and n.value.value.id == t and n.value.attr == 'lexer':
-            (stores if isinstance(n.ctx, ast.Store) else loads).add(n.attr)
+    # what the rule's decisions depend on, read off its paths (helpers it calls are inlined there)
+    lex = ('attr', ('param', t), 'lexer')
+
+    def scan(x):
+        if isinstance(x, tuple):
+            if len(x) == 3 and x[0] == 'attr' and x[1] == lex and isinstance(x[2], str):
+                loads.add(x[2])
+            for y in x:
+                scan(y)
+    from ..symexec import freeze as _fz
+    for p in rm.paths:
+        for c, _, _ in p.assumptions:
+            scan(c)
+        for e in p.events:
+            if e.kind in ('store_attr', 'aug_attr') and _fz(e.obj) == lex:
+                stores.add(e.attr)
     cands = loads - stores - {'lineno'}
     if len(cands) != 1:
         raise AnalysisError('lexer: cannot identify the bracket-depth attribute read by the line-break rule (candidates %r)' % sorted(cands))
